@@ -1,5 +1,7 @@
 pub mod checks;
 pub mod conv;
+pub mod dom;
 pub mod engine;
+pub mod irb;
 pub mod refsem;
 pub mod tape;
